@@ -212,6 +212,11 @@ Theorem C08_handler_error_shapes_pinned : handler_error_shapes = pinned_handler_
 Proof. exact handler_error_shapes_pinned. Qed.
 Print Assumptions C08_handler_error_shapes_pinned.
 
+(* every dynamic-voter handler takes quorum / voting period / enactment delay from the like-named field of its object *)
+Theorem C08_dynamic_param_sources_pinned : dynamic_param_sources = pinned_dynamic_param_sources.
+Proof. exact dynamic_param_sources_pinned. Qed.
+Print Assumptions C08_dynamic_param_sources_pinned.
+
 (* ---- chk_sound: the spec checker (Model/C08Check.v) applied to REAL observations decides with
    functions that agree with the model's oracles, and the clauses it evaluates at a finalisation,
    an application and an accepted vote hold in EVERY run of the instantiated model ([cP] = the
